@@ -309,3 +309,9 @@ def sqrt : Itv → Itv
 
 end Itv
 end Ibex
+
+namespace Ibex
+/-- The correspondence check applied by the driver to a forward operator: the implementation's
+    result `impl` is a well-formed interval containing the model's tightest hull `model`. -/
+def Itv.enclOk (model impl : Itv) : Bool := impl.WF && Itv.subset model impl
+end Ibex
